@@ -22,9 +22,11 @@ def _tla_str(x):
 
 
 def _decls_tla(name, decls):
+    import re
     items = []
     for dn, d in sorted(decls.items()):
-        fs = ", ".join("F(%s, %s, %d, %s, %d)" % (_tla_str(f["name"]), _tla_str(f["kind"]), f["size"], _tla_str(f["struct"]), f["count"]) for f in d["fields"] or [])
+        fs = ", ".join("F(%s, %s, %d, %s, %d, %s)" % (_tla_str(f["name"]), _tla_str(f["kind"]), f["size"], _tla_str(f["struct"]), f["count"],
+                                                        _tla_str(re.sub(r"[^a-z0-9]", "", f["name"].lower()))) for f in d["fields"] or [])
         items.append("  %s :> [union |-> %s, fields |-> <<%s>>]" % (_tla_str(dn), "TRUE" if d.get("union") else "FALSE", fs))
     return "%s ==\n%s\n" % (name, " @@\n".join(items))
 
@@ -81,7 +83,7 @@ def layouts(tier, v, wd, repo):
     mod = ["------------------------------ MODULE AbiDecls ------------------------------",
            "(* GENERATED from /repo on this run by tools/props/C19.py - do not edit *)",
            "EXTENDS TLC",
-           "F(n, k, s, st, c) == [name |-> n, kind |-> k, size |-> s, struct |-> st, count |-> c]",
+           "F(n, k, s, st, c, nm) == [name |-> n, kind |-> k, size |-> s, struct |-> st, count |-> c, norm |-> nm]   \\* norm: the name without case and punctuation",
            "PadNames == {%s}" % ", ".join(_tla_str(x) for x in pads),
            _decls_tla("CDecls", real["c"]), _decls_tla("GoDeclsReal", real["go"]), _decls_tla("GoDeclsStub", stub["go"]),
            "Pairs == {%s}" % ", ".join('[c |-> %s, go |-> %s, flavour |-> %s]' % (_tla_str(a), _tla_str(b), _tla_str(c)) for a, b, c in pairs),
@@ -113,6 +115,11 @@ def layouts(tier, v, wd, repo):
             if list(e["gooffsets"]) != gtruth or e["gosize"] != gdecl["size"]:
                 raise vlib.Infra("the ABI model's Go layout rules disagree with the Go compiler for %s (%s): model %s/%d, reflect %s/%d" % (e["go"], e["flavour"], e["gooffsets"], e["gosize"], gtruth, gdecl["size"]))
         # (b) C against Go
+        if not e.get("names", True):
+            v.violation("c19-names:%s:%s:%s" % (e["c"], e["go"], e["flavour"]),
+                        "struct %s vs %s (%s build): fields of equal offset and width carry different names on the two sides: C %s, Go %s - values are written into the wrong member" % (
+                            e["c"], e["go"], e["flavour"], [f["name"] for f in cdecl["fields"]], [f["name"] for f in gdecl["fields"]]),
+                        {"c": cdecl, "go": gdecl})
         if not e["agrees"]:
             v.violation("c19-layout:%s:%s:%s" % (e["c"], e["go"], e["flavour"]),
                         "struct %s: the C layout (size %d, field offsets %s) and its Go counterpart %s in the %s build (size %d, field offsets %s) differ in size, field offsets or field widths" % (
